@@ -116,8 +116,19 @@ def run(res, tier):
     f = fx.fn1(TH + '::WaitForNextMessageAux')
     drain = [c for c in f.walk() if c.is_call() and re.search(r'recv(_ignore_eintr)?$', c.get('q') or '')]
     deq = [c for c in f.walk() if c['k'] == 'CXXMemberCallExpr' and (c.get('q') or '').endswith('Queue::RemoveHead') and any(x.get('q') == MSGS for x in c.walk())]
-    blocks = [c for c in f.walk() if c.is_call() and re.search(r'(SocketMultiplexer::WaitForEvents|WaitCondition::Wait)$', c.get('q') or '')]
-    rec = [c for c in f.walk() if c.is_call() and (c.get('q') or '') == TH + '::WaitForNextMessageAux']
+    is_block = lambda c: c.is_call() and re.search(r'(SocketMultiplexer::WaitForEvents|WaitCondition::Wait)$', c.get('q') or '') is not None
+    blocks = [c for c in f.walk() if is_block(c)]
+    # the blocking half may have been split off into a private helper called at the end (msa/ip.py): its obligations are judged there, the dequeue-first obligation at its call site
+    fb, fb_calls = f, []
+    if not blocks:
+        from msa import ip as IP
+        for g_ in IP.scope(fx, f, '^' + TH + '::'):
+            if g_ is not f and any(is_block(c) for c in g_.walk()):
+                fb = g_
+                blocks = [c for c in g_.walk() if is_block(c)]
+                fb_calls = [c for c in f.walk() if c.is_call() and (c.get('fn') == g_.id or ((c.get('q') or '') == g_.q))]
+                break
+    rec = [c for c in fb.walk() if c.is_call() and (c.get('q') or '') in (TH + '::WaitForNextMessageAux', fb.q)]
     if not drain or len(deq) != 1 or len(blocks) < 2 or len(rec) < 2:
         raise AnalysisBroken('WaitForNextMessageAux: drain/dequeue/blocking/re-entry calls not found (%d/%d/%d/%d)' % (len(drain), len(deq), len(blocks), len(rec)))
     d0 = deq[0]
@@ -127,14 +138,18 @@ def run(res, tier):
            message='WaitForNextMessageAux can drain the wake-up byte after its dequeue attempt: a Message enqueued in between has its signal swallowed and the receiver blocks with a non-empty queue (lost wake-up)')
     # the drain is on the socket-signalling path: guarded only by (_useMessagingSockets, fd >= 0)
     for b in blocks:
-        pre = P.must_precede(f, deq, b)
-        held = cl.may_held_at(f, b)
-        res.ob('WAIT-ORDER', f.where(b), 'blocking %s is preceded by the dequeue attempt and runs without a lock' % (b.get('q') or '').split('::')[-1], pre and not held, function=f.q,
+        if fb is f:
+            pre = P.must_precede(f, deq, b)
+            held = cl.may_held_at(f, b)
+        else:
+            pre = bool(fb_calls) and all(P.must_precede(f, deq, c_) for c_ in fb_calls)
+            held = set(cl.may_held_at(fb, b)) | set(k_ for c_ in fb_calls for k_ in cl.may_held_at(f, c_))
+        res.ob('WAIT-ORDER', fb.where(b), 'blocking %s is preceded by the dequeue attempt and runs without a lock' % (b.get('q') or '').split('::')[-1], pre and not held, function=f.q,
                how='lock set %s' % sorted(held), key='WAIT-ORDER|%s|block:%s' % (f.q, (b.get('q') or '').split('::')[-1]),
                message='WaitForNextMessageAux %s' % ('blocks while holding a lock' if held else 'can block without having tried to dequeue first: an already queued Message is not delivered until the next signal'))
-        esc = P.escape_edges(f, extra=lambda n, pol: ('false' if pol else 'true') if (n.is_call() and (n.get('q') or '').endswith('::IsSocketReadyForRead')) else None)
-        okf, path = P.must_follow(f, b, rec, escapes=esc)
-        res.ob('WAIT-ORDER', f.where(b), 'after %s returns OK the function re-enters itself to dequeue' % (b.get('q') or '').split('::')[-1], okf, function=f.q,
+        esc = P.escape_edges(fb, extra=lambda n, pol: ('false' if pol else 'true') if (n.is_call() and (n.get('q') or '').endswith('::IsSocketReadyForRead')) else None)
+        okf, path = P.must_follow(fb, b, rec, escapes=esc)
+        res.ob('WAIT-ORDER', fb.where(b), 'after %s returns OK the function re-enters itself to dequeue' % (b.get('q') or '').split('::')[-1], okf, function=f.q,
                key='WAIT-ORDER|%s|recheck:%s' % (f.q, (b.get('q') or '').split('::')[-1]),
                message='after waking up WaitForNextMessageAux can return without trying to dequeue again: the Message that caused the wake-up is not delivered')
     # ---------------------------------------------------------------------------------- WaitCondition
